@@ -110,14 +110,66 @@ Theorem C12_fetch_finds_honest_reply : forall d (H : bytes -> bytes),
 Proof. exact fetch_finds_honest_reply. Qed.
 Print Assumptions C12_fetch_finds_honest_reply.
 
-(* equal bytes pin down parent, proposer and view (fixed-width prefix) *)
-Theorem C12_same_bytes_same_header : forall b1 b2,
+(* ---- what the bytes (hence the hash) of a certificate and of a block name ----
+   (after fixes/C12-qc-bytes-bind-signers.patch: QuorumCert.ToBytes also covers the claimed participant ids
+   and their count.)  [ids_ok s]: the participant ids are below 2^32 and fewer than 2^32 - what Go's types give. *)
+Theorem C12_qc_bytes_name_signers : forall q1 q2,
+  length (qc_hash q1) = 32%nat -> length (qc_hash q2) = 32%nat ->
+  qc_view q1 < 2^64 -> qc_view q2 < 2^64 -> ids_ok (qc_sig q1) -> ids_ok (qc_sig q2) ->
+  qc_bytes q1 = qc_bytes q2 ->
+  qc_view q1 = qc_view q2 /\ qc_hash q1 = qc_hash q2 /\ sig_is_nil (qc_sig q1) = sig_is_nil (qc_sig q2)
+  /\ sig_raw (qc_sig q1) = sig_raw (qc_sig q2) /\ sig_ids (qc_sig q1) = sig_ids (qc_sig q2).
+Proof. exact qc_bytes_inj. Qed.
+Print Assumptions C12_qc_bytes_name_signers.
+
+(* equal block bytes name the signers of a signed certificate whatever the batches are (the participant
+   section is read back from the end of the bytes) ... *)
+Theorem C12_block_bytes_name_signers : forall b1 b2,
+  sig_is_nil (qc_sig (b_cert b1)) = false -> sig_is_nil (qc_sig (b_cert b2)) = false ->
+  ids_ok (qc_sig (b_cert b1)) -> ids_ok (qc_sig (b_cert b2)) ->
+  block_bytes b1 = block_bytes b2 ->
+  sig_ids (qc_sig (b_cert b1)) = sig_ids (qc_sig (b_cert b2)) /\ ts_nanos (b_ts b1) = ts_nanos (b_ts b2).
+Proof. exact block_bytes_name_signers. Qed.
+Print Assumptions C12_block_bytes_name_signers.
+
+(* ... and, under the explicit framing premise that the two batches have the same length (batch and
+   certificate are not framed against each other in Block.ToBytes), every component *)
+Theorem C12_block_bytes_name_everything : forall b1 b2,
   length (b_parent b1) = 32%nat -> length (b_parent b2) = 32%nat ->
   b_proposer b1 < 2^32 -> b_proposer b2 < 2^32 -> b_view b1 < 2^64 -> b_view b2 < 2^64 ->
+  length (qc_hash (b_cert b1)) = 32%nat -> length (qc_hash (b_cert b2)) = 32%nat ->
+  qc_view (b_cert b1) < 2^64 -> qc_view (b_cert b2) < 2^64 ->
+  ids_ok (qc_sig (b_cert b1)) -> ids_ok (qc_sig (b_cert b2)) ->
+  length (b_batch b1) = length (b_batch b2) ->
   block_bytes b1 = block_bytes b2 ->
-  b_parent b1 = b_parent b2 /\ b_proposer b1 = b_proposer b2 /\ b_view b1 = b_view b2.
-Proof. exact block_bytes_prefix. Qed.
-Print Assumptions C12_same_bytes_same_header.
+  b_parent b1 = b_parent b2 /\ b_proposer b1 = b_proposer b2 /\ b_view b1 = b_view b2 /\ b_batch b1 = b_batch b2
+  /\ qc_view (b_cert b1) = qc_view (b_cert b2) /\ qc_hash (b_cert b1) = qc_hash (b_cert b2)
+  /\ sig_is_nil (qc_sig (b_cert b1)) = sig_is_nil (qc_sig (b_cert b2))
+  /\ sig_raw (qc_sig (b_cert b1)) = sig_raw (qc_sig (b_cert b2)) /\ sig_ids (qc_sig (b_cert b1)) = sig_ids (qc_sig (b_cert b2))
+  /\ ts_nanos (b_ts b1) = ts_nanos (b_ts b2).
+Proof. exact block_bytes_inj. Qed.
+Print Assumptions C12_block_bytes_name_everything.
+
+(* the fetched block carries the certificate signers of the block the requested hash names *)
+Theorem C12_fetched_block_names_signers : forall d (H : bytes -> bytes),
+  (forall a b, H a = H b -> a = b) -> (forall a, length (H a) = 32%nat) ->
+  forall h replies blk orig,
+    fetch_block H d h replies = Ok (Some blk) -> block_hash H orig = h ->
+    sig_is_nil (qc_sig (b_cert blk)) = false -> sig_is_nil (qc_sig (b_cert orig)) = false ->
+    ids_ok (qc_sig (b_cert blk)) -> ids_ok (qc_sig (b_cert orig)) ->
+    sig_ids (qc_sig (b_cert blk)) = sig_ids (qc_sig (b_cert orig)) /\ ts_nanos (b_ts blk) = ts_nanos (b_ts orig).
+Proof. exact fetched_block_names_signers. Qed.
+Print Assumptions C12_fetched_block_names_signers.
+
+(* the encoding before the repair (signature bytes without the signer ids) did not have this property:
+   two well-formed blocks with different certificate signers and the same old bytes *)
+Theorem C12_old_block_bytes_name_signers_refuted :
+  exists b1 b2, wf_block (fun _ => None) b1 = true /\ wf_block (fun _ => None) b2 = true /\
+    block_bytes_old b1 = block_bytes_old b2 /\
+    sig_ids (qc_sig (b_cert b1)) <> sig_ids (qc_sig (b_cert b2)) /\
+    block_bytes b1 <> block_bytes b2.
+Proof. exact old_block_bytes_name_signers_refuted. Qed.
+Print Assumptions C12_old_block_bytes_name_signers_refuted.
 
 (* ---- non-vacuity: concrete well-formed objects of each scheme, and the hypotheses are not idle ---- *)
 Definition ex_decode (s : bytes) : option bytes := if bytes_eqb s [192; 0; 1] then Some s else None.
@@ -136,8 +188,10 @@ Example C12_wf_examples :
 Proof. vm_compute. repeat split. Qed.
 
 Example C12_participants_example :
-  sig_participants (qc_sig ex_qc_bls) = Ok [1; 3; 24] /\ sig_participants (qc_sig ex_qc_ecdsa) = Ok [3; 1; 4294967295].
-Proof. vm_compute. split; reflexivity. Qed.
+  sig_participants (qc_sig ex_qc_bls) = Ok [1; 3; 24] /\ sig_participants (qc_sig ex_qc_ecdsa) = Ok [3; 1; 4294967295] /\
+  qc_bytes ex_qc_bls = le64 9 ++ ex_h 1 ++ [192; 0; 1] ++ [1;0;0;0; 3;0;0;0; 24;0;0;0] ++ [3;0;0;0] /\
+  qc_bytes (mkQC SigNil 0 (ex_h 0)) = le64 0 ++ ex_h 0.
+Proof. vm_compute. repeat split; reflexivity. Qed.
 
 (* outside wf the round trip really fails: an id above 2^32, a 31-byte hash, a non-canonical point *)
 Example C12_wf_needed :
@@ -145,9 +199,3 @@ Example C12_wf_needed :
   from_pb_qc ex_decode (Some (to_pb_qc (mkQC SigNil 1 (repeat 0 31)))) <> mkQC SigNil 1 (repeat 0 31) /\
   from_pb_qc ex_decode (Some (to_pb_qc (mkQC (SigBLS [1] []) 1 (ex_h 0)))) <> mkQC (SigBLS [1] []) 1 (ex_h 0).
 Proof. vm_compute. repeat split; discriminate. Qed.
-
-(* the remark on what a hash names: two different well-formed blocks with the same bytes *)
-Example C12_bytes_do_not_name_signers :
-  relabel_b1 <> relabel_b2 /\ block_bytes relabel_b1 = block_bytes relabel_b2
-  /\ wf_block (fun _ => None) relabel_b1 = true /\ wf_block (fun _ => None) relabel_b2 = true.
-Proof. exact block_bytes_ignore_signer_labels. Qed.
